@@ -5,6 +5,7 @@ REGISTRY = {
     "C03": "core",
     "C05": "c05",
     "C06": "core",
+    "C07": "core",
     "C10": "core",
     "C12": "c12",
     "C13": "core",
